@@ -97,13 +97,15 @@ def run_case(case, ctx):
     # cluster-id list in the caller's order: position p holds the id of label perm[p]; one id
     # without any spike is inserted at unused_pos
     ids = IDS_BIG if case.get('bigids') else IDS
+    if case.get('bigids') and (len(labels) + b) % 2:
+        ids = [300, 7, 65535, 41]          # the largest 16-bit id
     id_list = [ids[j] for j in perm]
     id_list.insert(case['unused_pos'], UNUSED)
     pos_of_label = {j: id_list.index(ids[j]) for j in range(k)}
     lab_pos = np.array([pos_of_label[int(l)] for l in labels], dtype=np.int64)
     nC = len(id_list)
     cdt = ['int64', 'int32', 'uint32', 'uint16'][(len(labels) + b + h + k) % 4]
-    if case.get('bigids') and cdt == 'uint16':
+    if case.get('bigids') and cdt == 'uint16' and max(ids) > 65535:
         cdt = 'uint32'
     spike_clusters = np.array([ids[int(l)] for l in labels], dtype=cdt)
     times = samples / rate
